@@ -394,6 +394,9 @@ class CapWalker:
                 if m == "ensure_capacity" and call.args and isinstance(call.args[0], ast.Constant):
                     cap[recv] = call.args[0].value
                     continue
+                if m == "ensure_capacity" and call.args:
+                    cap[recv] = max(cap.get(recv, 0), 1)  # ensure_capacity(size): at least what is about to be packed
+                    continue
                 if m == "write_byte_no_check":
                     key = "%s/%s.write_byte_no_check" % (self.qual, recv)
                     site = (call.lineno, call.col_offset)
@@ -487,6 +490,10 @@ def rule_py_capacity(out):
                 n = None
                 for st in fn.body:
                     v = _is_capacity_idiom(st)
+                    if v is None and isinstance(st, ast.Expr) and isinstance(st.value, ast.Call) and isinstance(st.value.func, ast.Attribute) \
+                            and st.value.func.attr == "ensure_capacity" and _recv_name(st.value) in streams and st.value.args \
+                            and isinstance(st.value.args[0], ast.Constant) and isinstance(st.value.args[0].value, int):
+                        v = st.value.args[0].value  # the same test, through the method that implements it
                     if v is not None:
                         n = v
                 out.check(n is not None and n >= 10, rid, qual + "/capacity test before the varint loop", pos(rel, fn),
